@@ -47,7 +47,7 @@ fn generate(rng: &mut Rng) -> C16Sc {
     // deployments behind a load balancer: every client (the victim too) arrives from the same one or two peers
     let lb_mode = proxy.is_some() && rng.chance(1, 2);
     // a crowd that misbehaves in the same way (rather than a mix)
-    let same_kind = if rng.chance(1, 3) { Some(rng.below(10)) } else { None };
+    let same_kind = if rng.chance(1, 3) { Some(rng.below(11)) } else { None };
     // who the victim is (hostile clients may claim to be that player)
     let victim_name = "Victim".to_string();
     let victim_uuid = format!("{:032x}", (u128::from(rng.next_u64()) << 64) | u128::from(rng.next_u64()));
@@ -67,7 +67,7 @@ fn generate(rng: &mut Rng) -> C16Sc {
         with_header(rng, &mut spec, proxy, &src);
         let plen = spec.preamble.as_ref().map(|p| p.len() as u64).unwrap_or(0);
         let mut wplan = vec![];
-        let kind = match same_kind.unwrap_or_else(|| rng.below(10)) {
+        let kind = match same_kind.unwrap_or_else(|| rng.below(11)) {
             0 if plen > 0 => {
                 // nothing at all: stalls before the header
                 spec.preamble = None;
@@ -110,6 +110,13 @@ fn generate(rng: &mut Rng) -> C16Sc {
                 }
                 wplan.push(WRule::Stall);
                 "never_reads"
+            }
+            10 => {
+                // an honest-looking login that the authentication service turns down (never joined a session)
+                spec.intent = 2;
+                spec.name = format!("Hostile{i}");
+                spec.close_on_end_ns = Some(0);
+                "authentication_fails"
             }
             9 => {
                 // speaks nonsense: a frame of length zero, an endless length prefix, random bytes - then stays
@@ -177,14 +184,14 @@ fn generate(rng: &mut Rng) -> C16Sc {
     let kinds: Vec<String> = order.into_iter().map(|x| x.1).collect();
     clients.push(v);
     let services = Services {
-        auth: Script::always(Some(0), AuthRes::Claim),
+        auth: Script::always(Some(0), AuthRes::ErrorIfName { prefix: "Hostile".into() }),
         discovery: Script::always(Some(*rng.pick(&[0u64, 0, secs(2), secs(20)])), DiscRes::Targets(vec![TargetSpec { id: "t0".into(), addr: "10.9.8.7:25565".into(), meta: Default::default() }])),
         ..Default::default()
     };
     C16Sc {
         net: NetScenario {
             seed: rng.next_u64(),
-            cfg: NetCfg { secret: None, expiry: None, max_frame: None, timeout_ns: secs(*rng.pick(&[30u64, 120, 600])), proxy, limiter, use_start: false, agones: false, secret_source: None },
+            cfg: NetCfg { secret: None, expiry: None, max_frame: None, timeout_ns: secs(*rng.pick(&[30u64, 120, 600])), proxy, limiter, use_start: false, agones: false, secret_source: None, localization_from_services: false },
             wall: Default::default(),
             services,
             clients,
